@@ -64,7 +64,10 @@ def _filtered_sweep_defs(f, sweep, fixed):
     for s in defs:
         v = s.value
         good = False
-        if isinstance(v, ast.ListComp) and len(v.generators) == 1:
+        # tuple(<generator>) / list(<generator>) / sorted(...) of the same comprehension: the same selection
+        while isinstance(v, ast.Call) and isinstance(v.func, ast.Name) and v.func.id in ("tuple", "list", "sorted") and len(v.args) == 1 and not v.keywords:
+            v = v.args[0]
+        if isinstance(v, (ast.ListComp, ast.GeneratorExp)) and len(v.generators) == 1:
             g = v.generators[0]
             if isinstance(g.target, ast.Name) and isinstance(v.elt, ast.Name) and v.elt.id == g.target.id:
                 good = any(not_in_fixed(c, g.target.id) for c in g.ifs)
